@@ -66,6 +66,15 @@ func (c *Conversation) receiveQueryMessage(msg ValidMessage) ([]messageWithHeade
 		return nil, nil
 	}
 
+	// a repeated query while our D-H Commit is still unanswered gets the same commit again: a new
+	// one would invalidate the D-H Key message the peer may already have sent for the first
+	if c.ake != nil && c.ake.ourPublicValue != nil {
+		if _, awaiting := c.ake.state.(authStateAwaitingDHKey); awaiting {
+			ts, err := c.wrapMessageHeader(msgTypeDHCommit, c.serializeDHCommit(c.ake.ourPublicValue))
+			return c.potentialAuthError(compactMessagesWithHeader(ts), err)
+		}
+	}
+
 	ts, err := c.sendDHCommit()
 	return c.potentialAuthError(compactMessagesWithHeader(ts), err)
 }
